@@ -2,6 +2,7 @@
 import random
 from props.gossip_common import *
 
+from props import bulk_probe
 ID = "C17"
 COQ_TARGETS = ["Run/Run_Gossip.vo"]
 META = {
@@ -196,11 +197,17 @@ def run(ctx):
            "correspondence": {"harness": "gossip_h world mode (1 node)", "histories": len(okc), "ops": sum(len(c["ops"]) for c in cases),
                               "distribution": op_mix(cases), "disagreements": len(dis), "seed": ctx["seed"]},
            "monitor": {"histories": len(cases), "failures": len(mon_fail)}}
+    # bulk synchronisation over the datagram path (hundreds to thousands of entries; monitor only)
+    bcov, bv = bulk_probe.run(ctx, ID)
+    cov["bulk_pull"] = bcov
+    violations += bv
     return {"coverage": cov, "violations": violations, "known": known}
 
 
 def replay(path, wd):
     obj = json.load(open(path))
+    if obj.get("kind") == "bulk":
+        return bulk_probe.replay(obj, wd)
     case = obj["case"]
     binary = build_harness("pkg/gossip", dirs=["gossip"])
     out = run_world(binary, wd, [case], tag="replay")[0]
